@@ -1,34 +1,51 @@
 """C09: regenerate coq/Generated/AddrSites.v from the repository's source.
 
-Facts:
-  * `sites`: every function of wallet/*.go (non-test) that reaches
-    NextExternalAddresses / NextInternalAddresses (directly or through helpers
-    that work on the caller's transaction: newAddress, newChangeAddress,
-    addrMgrWithChangeSource, ...) inside a walletdb.Update closure, with
-    `held` = w.newAddrMtx is locked before the Update begins and released only
-    after it returned (commit handlers included);
-  * `next_index_update_deferred`: waddrmgr's nextAddresses assigns the
-    in-memory next index only inside the closure it registers with tx.OnCommit
-    (the shape the model Addr/Conc.v transcribes).
+Facts (harness/cmd/extract-c09: go/ast + go/types over EVERY package of the
+repository, found by walking the tree):
+  * `sites`: every call, in any package, that runs a database write transaction
+    (walletdb.Update/Batch, DB.Update/Batch, or a repository helper that passes
+    its transaction function on to one of them) whose transaction function can
+    reach - through the call graph - an exported method of
+    waddrmgr.ScopedKeyManager that advances an account's in-memory next index:
+    class "issue" (the method returns managed addresses: Next*Addresses) or
+    "extend" (it does not: Extend*Addresses, recovery);
+    `held`   = a mutex that is a struct field (found by TYPE sync.Mutex /
+               sync.RWMutex; the one locked around most sites) is locked
+               EXCLUSIVELY before the transaction begins and released only after
+               the runner returned (commit and commit handlers included) - at
+               the site, in the runner helper the transaction function passes
+               through, or in every caller of the site's function;
+    `shared` = it is only READ-locked (RLock) around the transaction;
+  * `next_index_update_deferred`: every issuing primitive assigns the next-index
+    fields only inside closures registered with OnCommit (the shape the model
+    Addr/Conc.v transcribes for requests; recovery's eager update is the
+    model's "extender").
 
-Two paths produce the per-site flag `held`:
+Nothing is keyed on a function or field name except waddrmgr.ScopedKeyManager
+and the uint32 "next...index" fields of its account record.
 
-  PRIMARY  - the source shape, read by harness/cmd/extract-c09 (go/ast):
-             Lock() precedes the statement holding the Update call and the
-             Unlock is deferred or follows it, in the function body or in an
-             immediately invoked function literal that wraps the Update.
-             Positive evidence of a wrong protocol (Lock or Unlock inside the
-             transaction closure, Lock after the Update) gives `false`.
+Two paths produce the per-site flag:
+
+  PRIMARY  - the source shape (see the extractor's header).  Positive evidence
+             of a wrong protocol (lock or unlock inside the transaction closure,
+             read lock, no function on any path to the transaction takes the
+             mutex, site in a package that cannot see the unexported field)
+             gives `false`.
   FALLBACK - only for a site whose locking shape is not recognised (lock taken
-             through an alias, a helper, per-key mutexes, ...): PROBING the
+             through an alias, a lock helper, per-key mutexes, ...): PROBING the
              code built from the repository with harness/cmd/c09, see
-             probe_sites.
+             probe_sites.  Which request kinds of the harness go through which
+             site is asked of the running code (harness -calibrate: the stack
+             at Begin), not written down here.
 
 The Generated file says which path produced the table (`facts source: ...`)
 and each entry carries `held_from`.  main() raises only if, for some site, both
 paths fail (the message carries both reasons); shapes that make the site LIST
-itself unreliable (issuing functions used as values, hand-written Begin/Commit,
-issuing outside any transaction) cannot be probed and always raise."""
+itself unreliable (a transaction function that is an opaque value, hand-written
+Begin/Commit) cannot be probed and always raise.
+
+The extraction result is cached by a digest of every non-test .go file of the
+repository and of the extractor (bin/extract runs for every check)."""
 import hashlib, json, os, shutil, subprocess
 
 import vlib
@@ -42,29 +59,67 @@ def clist(xs):
     return "[" + "; ".join(xs) + "]"
 
 
+def _repo_digest(repo, extra_dirs=()):
+    h = hashlib.sha1()
+    for root in [repo] + list(extra_dirs):
+        for d, dirs, files in os.walk(root):
+            dirs[:] = sorted(x for x in dirs if not x.startswith(".") and x not in ("testdata", "vendor"))
+            for f in sorted(files):
+                if f.endswith(".go") and not f.endswith("_test.go") or f == "go.mod":
+                    p = os.path.join(d, f)
+                    h.update(os.path.relpath(p, root).encode())
+                    try:
+                        h.update(open(p, "rb").read())
+                    except OSError:
+                        pass
+    return h.hexdigest()
+
+
 def extract(repo):
+    key = _repo_digest(repo, [os.path.join(vlib.HARNESS, "cmd", "extract-c09")])
+    cache_p = os.path.join(vlib.WORK, "c09_extract_cache.json")
+    try:
+        c = json.load(open(cache_p))
+        if c.get("key") == key:
+            return c["res"]
+    except (OSError, ValueError, KeyError):
+        pass
     with vlib.Lock("go"):
         p = subprocess.run(["go", "run", "./cmd/extract-c09", repo], cwd=vlib.HARNESS, env=vlib.GOENV,
                            stdout=subprocess.PIPE, stderr=subprocess.PIPE, text=True, timeout=280)
     if p.returncode != 0:
         raise RuntimeError("extract-c09 failed on %s (rc=%d): %s" % (repo, p.returncode, p.stderr.strip()[-2000:]))
-    return json.loads(p.stdout)
+    res = json.loads(p.stdout)
+    os.makedirs(vlib.WORK, exist_ok=True)
+    with open(cache_p, "w") as f:
+        json.dump(dict(key=key, res=res), f)
+    return res
 
 
 def render(res, source_line):
     rows = []
     for s in res["sites"]:
-        rows.append("  {| site_name := %s; site_file := %s; site_via := %s;\n     held := %s; held_from := %s; held_why := %s |}" % (
-            cstr(s["name"]), cstr(s["file"]), clist([cstr(v) for v in s["via"]]),
-            "true" if s["held"] else "false", cstr(s["from"]), cstr(s["why"])))
-    return """(* GENERATED by lib/extract_c09.py (harness/cmd/extract-c09, go/ast) from the
-   repository's wallet/*.go and waddrmgr/*.go.  Do not edit; bin/extract rewrites it.
+        rows.append("  {| site_name := %s; site_pkg := %s; site_file := %s; site_class := %s; site_via := %s;\n"
+                    "     site_runner := %s; held := %s; shared := %s; held_from := %s;\n     held_why := %s |}" % (
+                        cstr(s["name"]), cstr(s["pkg"]), cstr(s["file"]), cstr(s["class"]), clist([cstr(v) for v in s["via"]]),
+                        cstr(s["runner"]), "true" if s["held"] else "false", "true" if s.get("shared") else "false",
+                        cstr(s["from"]), cstr(s["why"])))
+    return """(* GENERATED by lib/extract_c09.py (harness/cmd/extract-c09, go/ast + go/types) from
+   EVERY package of the repository.  Do not edit; bin/extract rewrites it.
 
-   One entry per wallet function that issues chained addresses (through the
-   in-memory next index of waddrmgr) inside a walletdb.Update closure.
-   held = w.newAddrMtx is locked before the Update call and released after it;
-   held_from = "source" (shape read by go/ast) or "probe" (shape not recognised:
-   flag determined by running the gated two-request scenario on the built code). *)
+   One entry per database write transaction (a call of walletdb.Update/Batch,
+   DB.Update/Batch or of a repository helper wrapping one) whose transaction
+   function can reach an exported waddrmgr.ScopedKeyManager method that advances
+   an account's in-memory next index: site_class "issue" (the method returns
+   addresses) or "extend" (recovery).  site_name is the function containing the
+   call, as the Go runtime names it, relative to the module.
+   held   = the address mutex (%s) is locked exclusively before the transaction
+            begins and released after the runner returned (commit handlers included);
+   shared = it is only read-locked around the transaction (does not exclude
+            another reader);
+   held_from = "source" (shape read from the source) or "probe" (shape not
+   recognised: flag determined by running the gated two-request scenario on the
+   built code). *)
 (* facts source: %s *)
 From Coq Require Import String List Bool.
 Import ListNotations.
@@ -72,9 +127,13 @@ Local Open Scope string_scope.
 
 Record site := {
   site_name : string;
+  site_pkg : string;
   site_file : string;
+  site_class : string;
   site_via : list string;
+  site_runner : string;
   held : bool;
+  shared : bool;
   held_from : string;
   held_why : string
 }.
@@ -84,67 +143,66 @@ Definition sites : list site :=
 %s
 ].
 
-(* exported waddrmgr methods that reach nextAddresses *)
+(* the mutex: struct field of a sync mutex type locked around most of the sites *)
+Definition address_mutex : string := %s.
+Definition address_mutex_type : string := %s.
+
+(* packages read (directories relative to the module; "" = the module root) *)
+Definition packages_scanned : list string := %s.
+
+(* exported ScopedKeyManager methods from which an assignment to %s is reachable:
+   those returning managed addresses ... *)
 Definition issuing_primitives : list string := %s.
+(* ... and the others (recovery) *)
+Definition extending_primitives : list string := %s.
 
-(* wallet functions that issue on a transaction opened by their caller *)
-Definition issuing_helpers : list string := %s.
-
-(* nextAddresses assigns the in-memory next index only in its tx.OnCommit handler:
-   %s *)
+(* %s *)
 Definition next_index_update_deferred : bool := %s.
 
-(* informational: wallet functions that advance the index eagerly through
-   Extend{External,Internal}Addresses (recovery); not address requests, not in the table *)
-Definition other_index_writers : list string := %s.
+(* informational: ScopedKeyManager methods creating accounts, and the transactions
+   reaching them (an account's number comes from the database inside the creating
+   transaction and its counters start at 0 there: no stale-memory window) *)
+Definition account_primitives : list string := %s.
+Definition account_sites : list string := %s.
 
-Fixpoint site_held (name : string) (l : list site) : option bool :=
+(* informational: exported functions outside waddrmgr that issue or extend on a
+   transaction or bucket supplied by their caller *)
+Definition open_helpers : list string := %s.
+
+Definition is_issue (s : site) : bool := String.eqb (site_class s) "issue".
+Definition is_extend (s : site) : bool := String.eqb (site_class s) "extend".
+
+Fixpoint site_lookup (name : string) (l : list site) : option site :=
   match l with
   | [] => None
-  | s :: l' => if String.eqb (site_name s) name then Some (held s) else site_held name l'
+  | s :: l' => if String.eqb (site_name s) name then Some s else site_lookup name l'
   end.
-""" % (sanitize(source_line), ";\n".join(rows),
-       clist([cstr(x) for x in res["primitives"]]),
-       clist([cstr(x) for x in res["helpers"]]),
-       res["deferred_why"],
+""" % (sanitize(res.get("mutex") or "none identified"), sanitize(source_line), ";\n".join(rows),
+       cstr(res.get("mutex") or ""), cstr(res.get("mutex_type") or ""),
+       clist([cstr(x) for x in res["packages"]]),
+       sanitize("/".join(res.get("counter_fields") or [])),
+       clist([cstr(x) for x in res["issue_primitives"]]),
+       clist([cstr(x) for x in (res.get("extend_primitives") or [])]),
+       sanitize(res["deferred_why"]),
        "true" if res["deferred"] else "false",
-       clist([cstr(x) for x in (res.get("other_index_writers") or [])]))
+       clist([cstr(x) for x in (res.get("account_primitives") or [])]),
+       clist([cstr(x) for x in (res.get("account_sites") or [])]),
+       clist([cstr(x) for x in (res.get("open_helpers") or [])]))
 
 
 class ExtractError(Exception):
     pass
 
 
-# API variants of harness/cmd/c09 that drive each site, all on scope 84 /
-# account 0 (a spend from the imported account creates its change there);
-# group E draws from the external branch, group I from the internal one.
-VARIANTS = {
-    "NewAddress": ("E", ["NewAddress"]),
-    "CurrentAddress": ("E", ["CurrentAddress"]),
-    "NewChangeAddress": ("I", ["NewChangeAddress"]),
-    "txToOutputs": ("I", ["CreateSimpleTx", "SpendImported"]),
-    "FundPsbt": ("I", ["FundPsbt", "FundPsbtImported"]),
-}
-VIA_TXCREATOR = ("CreateSimpleTx", "SpendImported")    # served one at a time by wallet.txCreator
 PROBE_REPS = 3
 
 
 def _tree_digest(repo):
-    h = hashlib.sha1()
-    roots = [os.path.join(repo, d) for d in ("wallet", "waddrmgr", "walletdb", "wtxmgr")]
-    roots += [os.path.join(vlib.HARNESS, "cmd", "c09"), os.path.join(vlib.HARNESS, "internal", "proxydb")]
-    for root in roots:
-        for d, _, files in sorted(os.walk(root)):
-            for f in sorted(files):
-                if f.endswith(".go") and not f.endswith("_test.go"):
-                    h.update(f.encode())
-                    h.update(open(os.path.join(d, f), "rb").read())
-    h.update(str(PROBE_REPS).encode())
-    return h.hexdigest()
+    return _repo_digest(repo, [os.path.join(vlib.HARNESS, "cmd", "c09"), os.path.join(vlib.HARNESS, "internal", "proxydb")]) + str(PROBE_REPS)
 
 
-def _run_probe(repo, scenarios):
-    """build harness/cmd/c09 against `repo` and run the scenarios (its -replay mode)"""
+def _build_probe(repo):
+    """build harness/cmd/c09 against `repo` -> executable path"""
     with vlib.Lock("go"):
         os.makedirs(os.path.join(vlib.WORK, "bin"), exist_ok=True)
         modflag = []
@@ -161,6 +219,18 @@ def _run_probe(repo, scenarios):
                            env=vlib.GOENV, stdout=subprocess.PIPE, stderr=subprocess.PIPE, text=True, timeout=900)
         if p.returncode != 0:
             raise ExtractError("probe: harness/cmd/c09 does not build against %s: %s" % (repo, (p.stdout + p.stderr)[-1200:]))
+    return exe
+
+
+def calibrate(exe):
+    p = subprocess.run([exe, "-calibrate"], cwd=vlib.WORK, env=vlib.GOENV, stdout=subprocess.PIPE,
+                       stderr=subprocess.PIPE, text=True, timeout=300)
+    if p.returncode != 0:
+        raise ExtractError("probe: calibration run failed: %s" % p.stderr[-800:])
+    return json.loads(p.stdout.splitlines()[0])["calibration"]
+
+
+def _run_probe(exe, scenarios):
     inp = os.path.join(vlib.WORK, "c09_probe_in.jsonl")
     with open(inp, "w") as f:
         for sc in scenarios:
@@ -180,7 +250,7 @@ def _instance(a, b, rep):
     used = "CurrentAddress" in (a, b)
     pre = [dict(api=["NewAddress", "NewChangeAddress"][k % 2], scope="84", gate=False) for k in range(rep)]
     return dict(kind="window", pre=pre, mark_used=used, warm=(rep % 2 == 0),
-                calls=[dict(api=a, scope="84", gate=True), dict(api=b, scope="84", gate=False)],
+                calls=[dict(api=a, scope="84", gate=True, ahead=2, n=2), dict(api=b, scope="84", gate=False, ahead=1, n=2)],
                 script=[dict(op="start", call=0), dict(op="start", call=1),
                         dict(op="release", call=0), dict(op="release", call=1)])
 
@@ -196,7 +266,8 @@ def _verdict(case):
         raise ExtractError("probe: %s: %s" % (name, "; ".join(o["notes"] + [a["err"], b["err"]])[:300]))
     pos = {e: k for k, e in reversed(list(enumerate(ev)))}
     need = [("commit", 0), ("start", 1), ("release", 0)]
-    if any(e not in pos for e in need) or not (pos[need[0]] < pos[need[1]] < pos[need[2]]) or a["n"] == 0:
+    derived = a["n"] != 0 or a["api"].startswith("Recover")
+    if any(e not in pos for e in need) or not (pos[need[0]] < pos[need[1]] < pos[need[2]]) or not derived:
         raise ExtractError("probe: %s: the first request did not derive and park between its commit and its handlers: %s"
                            % (name, ev))
     inside = [e for e in (("begin", 1), ("commit", 1), ("rollback", 1), ("return", 1)) if e in pos and pos[e] < pos[("release", 0)]]
@@ -208,41 +279,44 @@ def _verdict(case):
     return "blocked", name
 
 
-def probe_sites(repo, unknown, trusted):
+def probe_sites(repo, names, unknown, trusted):
     """Flags of the sites in `unknown`, determined by running the code.
 
     The scenario is the witness of C09_unsafe_without_mutex / C09_unsafe_one_site_without_mutex,
     placed with the commit-handler gate of the walletdb proxy: request A is parked after its real
     commit (bbolt's writer lock is free again) and before its OnCommit handlers (the in-memory next
-    index is still stale); then an issuing request B on the same counter is started and the harness
-    waits until no goroutine can move.
+    index is still stale); then a request B on the same counter is started and the harness waits
+    until no goroutine can move.
 
-    Why this determines `held` for A's site S: `held` means that S's critical section - newAddrMtx
+    Why this determines `held` for A's site S: `held` means that S's critical section - the mutex
     taken before Begin, released after the handlers - excludes every other issuing request.  While A
     is parked the only thing that can keep B from BEGINNING its transaction is that mutex (the writer
     lock is free).  So if B - a request known to take the mutex before its Begin (its site is S itself
     or has `held = true` from the source) - begins or completes inside the window, S does not hold the
-    mutex there (never took it, took it inside the transaction, released it before the handlers, or
-    uses a different mutex for these arguments): `held = false`, and B has read the stale index (the
-    duplicate shows in the same run).  If in every instance B neither begins nor returns until A's
-    handlers were released, and the indices obtained are distinct and gap-free with memory = disk,
-    S's lock covers the window: `held = true`.  With B of site S itself the scenario also shows that
-    S takes the mutex BEFORE Begin (B would otherwise begin).  One instance is too narrow (a lock per
-    argument would pass S against itself), so S is run against itself and, in both orders, against
-    every drivable variant of every trusted site drawing from the same counter, including the spends
-    whose inputs belong to the imported account (they land on account 0), each PROBE_REPS times with
-    different start indices and cached/uncached account.  Pairs that wallet.txCreator serialises by
-    itself (two CreateSimpleTx-style requests) say nothing about the mutex and are left out; hence
-    txToOutputs needs at least one trusted partner site.
+    mutex there (never took it, took it inside the transaction, released it before the handlers, took
+    it only for reading, or uses a different mutex for these arguments): `held = false`, and B has
+    read the stale index (the duplicate shows in the same run).  If in every instance B neither begins
+    nor returns until A's handlers were released, and the indices obtained are distinct and gap-free
+    with memory = disk, S's lock covers the window: `held = true`.  With B of site S itself the
+    scenario also shows that S takes the mutex BEFORE Begin (B would otherwise begin).  One instance
+    is too narrow (a lock per argument would pass S against itself), so S is run against itself and,
+    in both orders, against every drivable variant of every trusted site drawing from the same
+    counter, including the spends whose inputs belong to the imported account (they land on
+    account 0), each PROBE_REPS times with different start indices and cached/uncached account.
+    Pairs that the wallet's transaction-creator goroutine serialises by itself (two
+    CreateSimpleTx-style requests) say nothing about the mutex and are left out.  A site whose
+    transaction never commits (the dry-run import) cannot be parked; it is probed in B's role only
+    (it must not begin inside a trusted request's window), which is all that matters for it.
+
+    Which request kind goes through which site is not written down here: the harness reports, for
+    every request kind it can make, the repository functions on the stack when its write transaction
+    begins (-calibrate); the first one that is a site of the table is the site.
 
     Limits (why this is the fallback, not the primary path): it is evidence from executions on
     scope 84 / account 0 / the imported account, not a syntactic guarantee for all arguments; sites
-    the harness cannot drive (ImportAccountDryRun, new functions) cannot be probed."""
-    for s in unknown:
-        if s not in VARIANTS:
-            raise ExtractError("probe: site %s cannot be driven by harness/cmd/c09" % s)
+    the harness cannot drive (new functions) cannot be probed."""
     cache_p = os.path.join(vlib.WORK, "c09_probe_cache.json")
-    key = _tree_digest(repo)
+    key = _tree_digest(repo) + ",".join(sorted(names))
     table = None
     try:
         c = json.load(open(cache_p))
@@ -251,18 +325,34 @@ def probe_sites(repo, unknown, trusted):
     except (OSError, ValueError):
         pass
     if table is None:
+        exe = _build_probe(repo)
+        cal = calibrate(exe)
+        site_of = {}
+        for api, ent in cal.items():
+            if ent.get("err"):
+                continue
+            for f in ent["stack"]:
+                if f in names:
+                    site_of[api] = f
+                    break
+        for s in unknown:
+            if s not in site_of.values():
+                raise ExtractError("probe: site %s cannot be driven by harness/cmd/c09 (requests it can make go through: %s)" % (
+                    s, ", ".join(sorted(set(site_of.values())))))
         pairs = []
-        for sa, (ga, va) in VARIANTS.items():
-            for sb, (gb, vb) in VARIANTS.items():
-                if ga != gb:
+        for a, ea in cal.items():
+            for b, eb in cal.items():
+                if a not in site_of or b not in site_of or a.endswith("Dry") or b.endswith("Dry"):
                     continue
-                for a in va:
-                    for b in vb:
-                        if a in VIA_TXCREATOR and b in VIA_TXCREATOR:
-                            continue
-                        pairs.append((sa, a, sb, b))
+                if not ea["commits"]:
+                    continue                       # cannot be parked
+                if eb["branch"] and ea["branch"] != eb["branch"]:
+                    continue
+                if ea["via_creator"] and eb["via_creator"]:
+                    continue
+                pairs.append((site_of[a], a, site_of[b], b))
         scen = [_instance(a, b, r) for (_, a, _, b) in pairs for r in range(PROBE_REPS)]
-        cases = _run_probe(repo, scen)
+        cases = _run_probe(exe, scen)
         table = []
         for k, (sa, a, sb, b) in enumerate(pairs):
             for r in range(PROBE_REPS):
@@ -278,7 +368,9 @@ def probe_sites(repo, unknown, trusted):
         with open(cache_p, "w") as f:
             json.dump(dict(key=key, table=table), f)
     flags, trusted = {}, set(trusted)
-    order = [s for s in unknown if s != "txToOutputs"] + [s for s in unknown if s == "txToOutputs"]
+    # sites served by the transaction-creator goroutine need a trusted partner: decide them last
+    solo = lambda S: any(r[0] == S and r[2] == S for r in table)      # noqa: E731
+    order = [s for s in unknown if solo(s)] + [s for s in unknown if not solo(s)]
     for S in order:
         rows = [r for r in table if (r[0] == S and (r[2] == S or r[2] in trusted)) or (r[2] == S and r[0] in trusted)]
         if not rows:
@@ -303,7 +395,9 @@ def sanitize(t):
 
 def main(repo, outdir, write_if_changed):
     res = extract(repo)
+    res = json.loads(json.dumps(res))          # private copy: the cached object is not modified
     strip = lambda t: sanitize(t.replace(repo.rstrip("/") + "/", ""))     # noqa: E731  the scratch path is not a fact
+    names = [s["name"] for s in res["sites"]]
     unknown = [s["name"] for s in res["sites"] if s["held"] is None]
     for s in res["sites"]:
         s["why"] = strip(s["why"])
@@ -312,14 +406,14 @@ def main(repo, outdir, write_if_changed):
     if unknown or os.environ.get("VERIF_C09_FORCE_PROBE"):
         forced = [x for x in os.environ.get("VERIF_C09_FORCE_PROBE", "").split(",") if x]     # development aid
         for s in res["sites"]:
-            if s["name"] in forced and s["name"] not in unknown:
+            if (s["name"] in forced or s["name"].split(".")[-1] in forced) and s["name"] not in unknown:
                 unknown.append(s["name"])
                 s["why"] = "forced by VERIF_C09_FORCE_PROBE (source said %s: %s)" % (s["held"], s["why"])
                 s["held"] = None
         why = {s["name"]: s["why"] for s in res["sites"]}
         trusted = [s["name"] for s in res["sites"] if s["held"] is True]
         try:
-            flags = probe_sites(repo, unknown, trusted)
+            flags = probe_sites(repo, names, unknown, trusted)
         except (ExtractError, OSError, ValueError, KeyError, IndexError, subprocess.SubprocessError) as e2:
             raise ExtractError("locking shape of site(s) %s not recognised (%s) AND probing the built code failed (%s)" % (
                 ", ".join(unknown), "; ".join(why[u] for u in unknown)[:600], strip(str(e2))[:800]))
